@@ -951,9 +951,6 @@ def _expand_stars(
     """Expand stars to lists of column selections"""
 
     new_selections: list[exp.Expr] = []
-    except_columns: dict[int, set[str]] = {}
-    replace_columns: dict[int, dict[str, exp.Alias]] = {}
-    rename_columns: dict[int, dict[str, str]] = {}
     ilike_pattern: str | None = None
 
     coalesced_columns = set()
@@ -973,6 +970,10 @@ def _expand_stars(
 
     for expression in scope_expression.selects:
         tables: list[str] = []
+        # The modifiers of a star (EXCEPT / REPLACE / RENAME) only apply to that star
+        except_columns: dict[int, set[str]] = {}
+        replace_columns: dict[int, dict[str, exp.Alias]] = {}
+        rename_columns: dict[int, dict[str, str]] = {}
         if isinstance(expression, exp.Star):
             # Only a string literal ILIKE pattern can filter the expansion at optimization time
             ilike = expression.args.get("ilike")
